@@ -194,8 +194,11 @@ def rows_rule(ctx: Ctx) -> None:
             "read_doubleword for 8 / 16 / 32 / other row widths")
     # one row per aligned address: the store happens exactly when the row is not there yet
     cond = fl.canon_cond(e.cond)
-    r.check("In(" in cond and "LOOP1" in cond, "Memory._memory_repr|read", f.loc(e.node),
-            f"the row is not stored exactly once per aligned address (condition: {cond})")
+    import re as _re
+    mm = _re.fullmatch(r"BOOL\[In\((.+), (\{\}|dict\(\))\); LOOP1\]#4", cond)
+    r.check(mm is not None and mm.group(1) == aa, "Memory._memory_repr|read", f.loc(e.node),
+            f"a row is not stored exactly when its aligned address has no row yet -- for every written address, nothing else decides "
+            f"(condition: {cond}): a word that contains a written byte could be missing from the table")
     rets = [fl.canon(x.value) for x in fl.returns]
     r.inst("Memory._memory_repr|returns", rets)
     # "the addresses actually written": nothing but a store may add a key to the backing dict -- a read that
